@@ -23,6 +23,40 @@ def keyless(e):
     return "%s:%s" % (e[0], e[1])
 
 
+def audit_erased(run, f, allow, name, feature_only=()):
+    """O18.4: the crate-local functions the allow-list erases as 'observation only' must
+    themselves contain nothing behaviour-relevant: no channel operation, spawn, sleep, lock
+    other than the wait-for map's, no panic - only counters, clock reads, map bookkeeping."""
+    strict = skeleton.Allow(f, strict_local=True)
+    # erased callees plus every function that exists only with the feature (incl. Drop impls,
+    # which run implicitly and therefore never show up as call events)
+    todo = sorted(set(allow.erased_local) | {d for d in feature_only if "::tests::" not in d})
+    seen = set()
+    while todo:
+        d = todo.pop()
+        if d in seen or f.body(d) is None:
+            continue
+        seen.add(d)
+        nodes, _ = skeleton.skeleton(f, d, strict)
+        def relevant(e):
+            if e[0] in ("panic", "build"):
+                return True
+            if e[0] != "call":
+                return False
+            c = e[1].split("<")[0]
+            if c in strict.erased_local | seen | set(todo):
+                return False
+            if f.body(c) is not None:
+                return True                      # a crate-local function that is not observation-only
+            return c.startswith(("tokio::", "std::thread", "std::process", "std::io", "std::fs", "std::net", "futures"))
+        bad = sorted(e for e in nodes if relevant(e))
+        calls_local = [e[1].split("<")[0] for e in nodes if e[0] == "call" and f.body(e[1].split("<")[0]) is not None]
+        todo += [c for c in calls_local if c not in seen]
+        short = d.replace("metrics::collector::", "")
+        run.require(not bad, "O18.4", "observation-only:%s" % short, "with [%s], %s is erased as observation-only but performs %s" % (name, d, [(e[0], e[1]) for e in bad][:3]),
+                    "%s contains only counters / clock reads / map bookkeeping" % short, nontrivial=False)
+
+
 def run(run):
     names = list(run.facts)
     if "default" not in names:
@@ -87,4 +121,5 @@ def run(run):
                 if not ea and not er:
                     run.ok("O18.2", "skeleton-equal:%s" % short, "%d events, %d flows equal to default" % (len(n1), len(e1)), nontrivial=len(n1) > 1)
         run.sample({"rule": "O18.2", "config": name, "families_compared": len(roots0), "differences": ndiff, "functions_only_with_feature": len(roots1 - set(roots0))})
+        audit_erased(run, f1, a1, name, sorted(roots1 - set(roots0)))
     run.cur_config = None
